@@ -72,6 +72,10 @@ type Solver struct {
 	transcript strings.Builder
 	AltKind   string
 	alt       *Solver
+	full      *Solver
+	FastMs    int
+	noFast    bool
+	curLimit  int
 }
 
 var dumpSlow = os.Getenv("VERIF_DUMP_SLOW")
@@ -94,7 +98,11 @@ func solverArgs(kind string, timeoutMs int) (string, []string) {
 }
 
 func NewSolver(kind string, ts *TermStore, timeoutMs int) (*Solver, error) {
-	s := &Solver{Kind: kind, ts: ts, timeoutMs: timeoutMs}
+	return NewSolverFast(kind, ts, timeoutMs, 0)
+}
+
+func NewSolverFast(kind string, ts *TermStore, timeoutMs, fastMs int) (*Solver, error) {
+	s := &Solver{Kind: kind, ts: ts, timeoutMs: timeoutMs, FastMs: fastMs}
 	if err := s.start(); err != nil {
 		return nil, err
 	}
@@ -102,7 +110,12 @@ func NewSolver(kind string, ts *TermStore, timeoutMs int) (*Solver, error) {
 }
 
 func (s *Solver) start() error {
-	path, args := solverArgs(s.Kind, s.timeoutMs)
+	lim := s.timeoutMs
+	if strings.HasPrefix(s.Kind, "cvc5") && s.FastMs > 0 && !s.noFast && s.FastMs < lim {
+		lim = s.FastMs
+	}
+	s.curLimit = lim
+	path, args := solverArgs(s.Kind, lim)
 	s.cmd = exec.Command(path, args...)
 	in, err := s.cmd.StdinPipe()
 	if err != nil {
@@ -135,6 +148,11 @@ func (s *Solver) Close() {
 		s.alt.Close()
 		s.Stats.Time += s.alt.Stats.Time
 		s.alt = nil
+	}
+	if s.full != nil {
+		s.full.Close()
+		s.Stats.Time += s.full.Stats.Time
+		s.full = nil
 	}
 	if s.cmd != nil {
 		s.in.Close()
@@ -218,35 +236,82 @@ func (s *Solver) readUntilMarker() []string {
 }
 
 // Check decides pc ∧ extra. With wantModel, values of vars are returned for sat.
+// Check decides pc ∧ extra. Escalation: the primary back end with a short
+// time limit, then the alternate back end with the full limit, then the
+// primary with the full limit. Only if all three give up is the answer unknown.
 func (s *Solver) Check(pc []*Term, extra []*Term, vars []*Term) (SatResult, map[string]uint64) {
-	res, model := s.check1(pc, extra, vars)
-	if res == Unknown && s.AltKind != "" {
-		// second opinion from another back end on unknown / timeout
+	fast := s.FastMs
+	if fast <= 0 || fast > s.timeoutMs {
+		fast = s.timeoutMs
+	}
+	res, model := s.check1(pc, extra, vars, fast)
+	if res != Unknown {
+		return res, model
+	}
+	account := func(r SatResult) {
+		s.Stats.Unknown--
+		s.Stats.AltDecided++
+		if r == Sat {
+			s.Stats.Sat++
+		} else {
+			s.Stats.Unsat++
+		}
+	}
+	if s.AltKind != "" {
 		if s.alt == nil {
 			a, err := NewSolver(s.AltKind, s.ts, s.timeoutMs)
-			if err != nil {
-				return res, model
+			if err == nil {
+				s.alt = a
 			}
-			s.alt = a
 		}
-		r2, m2 := s.alt.check1(pc, extra, vars)
-		s.Stats.AltQueries++
-		if r2 != Unknown {
-			s.Stats.Unknown--
-			s.Stats.AltDecided++
-			if r2 == Sat {
-				s.Stats.Sat++
-			} else {
-				s.Stats.Unsat++
+		if s.alt != nil {
+			r2, m2 := s.alt.check1(pc, extra, vars, s.timeoutMs)
+			s.Stats.AltQueries++
+			if r2 != Unknown {
+				account(r2)
+				return r2, m2
 			}
-			return r2, m2
+		}
+	}
+	if fast < s.timeoutMs {
+		var r3 SatResult
+		var m3 map[string]uint64
+		if strings.HasPrefix(s.Kind, "z3") {
+			r3, m3 = s.check1(pc, extra, vars, s.timeoutMs)
+			s.Stats.Unknown-- // counted twice
+			if r3 == Unknown {
+				s.Stats.Unknown++
+			}
+			if r3 != Unknown {
+				s.Stats.AltDecided++
+			}
+			return r3, m3
+		}
+		if s.full == nil {
+			f, err := NewSolver(s.Kind, s.ts, s.timeoutMs)
+			if err == nil {
+				f.noFast = true
+				s.full = f
+			}
+		}
+		if s.full != nil {
+			r3, m3 = s.full.check1(pc, extra, vars, s.timeoutMs)
+			s.Stats.AltQueries++
+			if r3 != Unknown {
+				account(r3)
+				return r3, m3
+			}
 		}
 	}
 	return res, model
 }
 
-func (s *Solver) check1(pc []*Term, extra []*Term, vars []*Term) (SatResult, map[string]uint64) {
+func (s *Solver) check1(pc []*Term, extra []*Term, vars []*Term, limitMs int) (SatResult, map[string]uint64) {
 	s.SetPC(pc)
+	if strings.HasPrefix(s.Kind, "z3") && limitMs != s.curLimit {
+		s.send(fmt.Sprintf("(set-option :timeout %d)\n", limitMs))
+		s.curLimit = limitMs
+	}
 	for _, e := range extra {
 		s.define(e)
 	}
@@ -257,8 +322,34 @@ func (s *Solver) check1(pc []*Term, extra []*Term, vars []*Term) (SatResult, map
 		s.send("(assert " + e.ref() + ")\n")
 	}
 	start := time.Now()
-	s.send("(check-sat)\n(echo \"<<done>>\")\n")
-	lines := s.readUntilMarker()
+	if dumpSlow != "" {
+		os.WriteFile(fmt.Sprintf("%s/current-%s-%p.smt2", dumpSlow, s.Kind, s), []byte(s.transcript.String()+"(check-sat)\n"), 0o644)
+	}
+	var lines []string
+	crashed := false
+	func() {
+		defer func() {
+			if r := recover(); r != nil {
+				if _, ok := r.(engineError); ok {
+					crashed = true
+					return
+				}
+				panic(r)
+			}
+		}()
+		s.send("(check-sat)\n(echo \"<<done>>\")\n")
+		lines = s.readUntilMarker()
+	}()
+	if crashed {
+		// the back end died (crash / out of memory): restart it, answer unknown
+		s.record = false
+		s.Stats.Queries++
+		s.Stats.Unknown++
+		s.Stats.Errors++
+		s.Stats.Time += time.Since(start)
+		s.restart()
+		return Unknown, nil
+	}
 	el := time.Since(start)
 	s.record = false
 	s.LastQuery = s.buf.String()
